@@ -368,6 +368,10 @@ func init() {
 				e1runS("doc-n2-d3", "doc", 2, 3, "tx", o, 1, 0),
 				e1runS("counter-n2-d3-2fails", "counter", 2, 3, "tx", o, 2, 0),
 				e1runSP("map-live-n2-d3-3fails", "map", 2, 3, "tx", o, 3, 0, "live"),
+				// single refused calls (also as the very first call of a replica that has just subscribed), up to two per history
+				e1runS("map-n2-d4-refused-calls", "map", 2, 4, "inv", o, 2, 0),
+				e1runS("doc-n2-d3-refused-calls", "doc", 2, 3, "inv", o, 2, 0),
+				e1runS("list-n2-d3-refused-calls", "list", 2, 3, "inv", o, 2, 0),
 				e1run("list-deep-n2-d2", "list", 2, 2, "batch", o, nil, "deep-list", 0),
 				e1run("doc-deep-n2-d2", "doc", 2, 2, "arr", o, nil, "deep-doc", 0),
 				e1run("list-skew-n3-d4", "list", 3, 4, "mid", o, nil, "skew", 0),
